@@ -1072,7 +1072,7 @@ fn c09_iter_backtrack_utf8() {
     core::mem::forget(cr);
 }
 
-// @verif props=C09,C15 tier=thorough timeout=5400 mem=16 unwind=8 bound="haystack <= 2 symbolic scalars, arbitrary engine table, symbolic start (incl. beyond the end), up to 5 next() calls; StartPredicate::Arbitrary" funcs="exec::Matches::new,Matches::next,BacktrackExecutor::initial_position,next_match,next_match_with_prefix_search,successful_match,Utf8Input::find_bytes,next_right_pos"
+// @verif props=C09,C15 tier=extended timeout=5400 mem=16 unwind=8 bound="haystack <= 2 symbolic scalars, arbitrary engine table, symbolic start (incl. beyond the end), up to 5 next() calls; StartPredicate::Arbitrary" funcs="exec::Matches::new,Matches::next,BacktrackExecutor::initial_position,next_match,next_match_with_prefix_search,successful_match,Utf8Input::find_bytes,next_right_pos"
 // @verif stubs="MatchAttempter::try_at_pos -> arbitrary deterministic table END[offset]" assumes="start is beyond the end or on a char boundary (find_from's documented precondition)"
 #[kani::proof]
 #[kani::unwind(8)]
@@ -1094,7 +1094,7 @@ fn c09_iter_backtrack_anchored() {
     core::mem::forget(cr);
 }
 
-// @verif props=C09 tier=thorough timeout=5400 mem=16 unwind=8 bound="as c09_iter_backtrack_utf8 with StartPredicate::StartAnchored and an engine that can only match at offset 0" funcs="BacktrackExecutor::next_match_anchored"
+// @verif props=C09 tier=extended timeout=5400 mem=16 unwind=8 bound="as c09_iter_backtrack_utf8 with StartPredicate::StartAnchored and an engine that can only match at offset 0" funcs="BacktrackExecutor::next_match_anchored"
 // @verif stubs="MatchAttempter::try_at_pos -> table" assumes="an anchored program matches only at offset 0"
 #[kani::proof]
 #[kani::unwind(8)]
@@ -1116,7 +1116,7 @@ fn c09_iter_backtrack_ascii() {
     core::mem::forget(cr);
 }
 
-// @verif props=C09,C13 tier=thorough timeout=5400 mem=16 unwind=8 bound="as c09_iter_backtrack_utf8 through AsciiInput on <= 3 symbolic ASCII bytes" funcs="BacktrackExecutor<AsciiInput>::next_match,AsciiInput::find_bytes,next_right_pos"
+// @verif props=C09,C13 tier=extended timeout=5400 mem=16 unwind=8 bound="as c09_iter_backtrack_utf8 through AsciiInput on <= 3 symbolic ASCII bytes" funcs="BacktrackExecutor<AsciiInput>::next_match,AsciiInput::find_bytes,next_right_pos"
 // @verif stubs="MatchAttempter::try_at_pos -> table"
 #[kani::proof]
 #[kani::unwind(8)]
@@ -1128,7 +1128,7 @@ fn c09_iter_backtrack_ascii_n2() {
 }
 
 // ---- thorough variants: haystacks of up to 3 characters ----
-// @verif props=C09,C15 tier=thorough timeout=5400 mem=20 unwind=9 bound="haystack <= 3 symbolic scalars, arbitrary engine table, symbolic start (incl. beyond the end), up to 6 next() calls; StartPredicate::Arbitrary" funcs="exec::Matches::new,Matches::next,BacktrackExecutor::initial_position,next_match,next_match_with_prefix_search,successful_match,Utf8Input::find_bytes,next_right_pos"
+// @verif props=C09,C15 tier=extended timeout=5400 mem=20 unwind=9 bound="haystack <= 3 symbolic scalars, arbitrary engine table, symbolic start (incl. beyond the end), up to 6 next() calls; StartPredicate::Arbitrary" funcs="exec::Matches::new,Matches::next,BacktrackExecutor::initial_position,next_match,next_match_with_prefix_search,successful_match,Utf8Input::find_bytes,next_right_pos"
 // @verif stubs="MatchAttempter::try_at_pos -> arbitrary deterministic table END[offset]" assumes="start is beyond the end or on a char boundary (find_from's documented precondition)"
 #[kani::proof]
 #[kani::unwind(9)]
@@ -1139,7 +1139,7 @@ fn c09_iter_backtrack_utf8_n3() {
     core::mem::forget(cr);
 }
 
-// @verif props=C09 tier=thorough timeout=5400 mem=20 unwind=9 bound="as c09_iter_backtrack_utf8 with StartPredicate::StartAnchored and an engine that can only match at offset 0" funcs="BacktrackExecutor::next_match_anchored"
+// @verif props=C09 tier=extended timeout=5400 mem=20 unwind=9 bound="as c09_iter_backtrack_utf8 with StartPredicate::StartAnchored and an engine that can only match at offset 0" funcs="BacktrackExecutor::next_match_anchored"
 // @verif stubs="MatchAttempter::try_at_pos -> table" assumes="an anchored program matches only at offset 0"
 #[kani::proof]
 #[kani::unwind(9)]
@@ -1150,7 +1150,7 @@ fn c09_iter_backtrack_anchored_n3() {
     core::mem::forget(cr);
 }
 
-// @verif props=C09,C13 tier=thorough timeout=5400 mem=20 unwind=9 bound="as c09_iter_backtrack_utf8 through AsciiInput on <= 3 symbolic ASCII bytes" funcs="BacktrackExecutor<AsciiInput>::next_match,AsciiInput::find_bytes,next_right_pos"
+// @verif props=C09,C13 tier=extended timeout=5400 mem=20 unwind=9 bound="as c09_iter_backtrack_utf8 through AsciiInput on <= 3 symbolic ASCII bytes" funcs="BacktrackExecutor<AsciiInput>::next_match,AsciiInput::find_bytes,next_right_pos"
 // @verif stubs="MatchAttempter::try_at_pos -> table"
 #[kani::proof]
 #[kani::unwind(9)]
